@@ -402,6 +402,125 @@ def _pick(seq, n, rnd):
     return rnd.sample(seq, n)
 
 
+def random_decls(rnd, n, tier):
+    """declarations drawn at random from the product of the grammar's dimensions: inner type x lower/upper bound kind x
+    spelling form x validator order x finite/predicate position x sanitizer x flags x derive profile x default.
+    Every draw is a declaration the reference model accepts; what it means is recorded exactly as for the
+    hand-enumerated part of the grid."""
+    out = []
+    num_types = INT_TYPES_ALL + FLOAT_TYPES
+    tries = 0
+    while len(out) < n and tries < n * 20:
+        tries += 1
+        fam = rnd.choices(['int', 'float', 'string'], [5, 4, 3])[0]
+        if fam in ('int', 'float'):
+            t = rnd.choice(INT_TYPES_ALL if fam == 'int' else FLOAT_TYPES)
+            sps = int_spellings(t, tier) if fam == 'int' else [x for x in float_spellings(t, tier) if x[1] not in (float('inf'), float('-inf'))]
+            lo_kind = rnd.choice([None, 'greater', 'greater_or_equal'])
+            up_kind = rnd.choice([None, 'less', 'less_or_equal'])
+            vs = []
+            lo = up = None
+            if lo_kind:
+                lo = rnd.choice(sps)
+            if up_kind:
+                cands = [x for x in sps if lo is None or (x[1] - lo[1] >= (3 if fam == 'int' else 0.5))]
+                if not cands:
+                    continue
+                up = rnd.choice(cands)
+            if lo is not None and fam == 'int' and lo_kind == 'greater' and lo[1] == int_max(t):
+                continue
+            if up is not None and fam == 'int' and up_kind == 'less' and up[1] == int_min(t):
+                continue
+            if lo is not None:
+                vs.append(V(lo_kind, *lo))
+            if up is not None:
+                vs.append(V(up_kind, *up))
+            has_pred = rnd.random() < 0.2
+            if has_pred:
+                vs.append(V('predicate', rnd.choice(['|x| *x != 4' if fam == 'int' else '|x| *x != 4.0']), form='closure') if rnd.random() < 0.6
+                          else V('predicate', f'pred_{t}', form='path', callee=f'pred_{t}'))
+            has_finite = fam == 'float' and rnd.random() < 0.55
+            if has_finite:
+                vs.append(V('finite'))
+            rnd.shuffle(vs)
+            san = []
+            r = rnd.random()
+            if r < 0.15:
+                san = [S('with', '|x| x / 2' if fam == 'int' else '|x| x / 2.0', 'closure')]
+            elif r < 0.25:
+                san = [S('with', f'san_{t}', 'path', callee=f'san_{t}')]
+            hv = bool(vs)
+            literal_only = all(v.get('form') in (None, 'lit') for v in vs)
+            profile = rnd.choice(['conv', 'views', 'serde', 'arb', 'all', 'min'])
+            ds = ['Debug']
+            if profile in ('conv', 'all'):
+                ds += ['FromStr', 'TryFrom' if hv or rnd.random() < 0.3 else 'From', 'Into', 'Display']
+            if profile in ('views', 'all'):
+                ds += ['Clone', 'Copy', 'PartialEq', 'PartialOrd', 'AsRef', 'Deref', 'Borrow']
+                if fam == 'int':
+                    ds += ['Eq', 'Ord', 'Hash']
+                elif has_finite:
+                    ds += ['Eq', 'Ord']
+            if profile in ('serde', 'all'):
+                ds += ['Serialize', 'Deserialize']
+            if profile in ('arb', 'all') and not has_pred and not (san and hv) and (fam == 'int' or literal_only):
+                ds.append('Arbitrary')
+            default = None
+            if rnd.random() < 0.2:
+                dv = rnd.choice([1, 3, 7, 50])
+                default = {'text': str(dv) if fam == 'int' else f'{dv}.0', 'value': dv if fam == 'int' else float(dv)}
+                ds.append('Default')
+            const_fn = rnd.random() < 0.15 and not san and not has_pred
+            new_unchecked = rnd.random() < 0.1
+            out.append(decl(fam, t, sanitizers=san, validators=vs, derives=ds, default=default, const_fn=const_fn, new_unchecked=new_unchecked,
+                            vis=rnd.choice(['pub', 'pub', '', 'pub(crate)']),
+                            layout={'order': rnd.sample(['sanitize', 'validate', 'derive', 'default', 'const_fn', 'new_unchecked'], 6),
+                                    'trailing': rnd.random() < 0.3, 'trailing_outer': rnd.random() < 0.3}, tags=['random-product']))
+        else:
+            kinds = rnd.sample(['not_empty', 'len_char_min', 'len_char_max', 'predicate', 'regex'], rnd.randint(0, 4))
+            vs = []
+            mn = rnd.choice(len_spellings(tier))
+            mx = rnd.choice([x for x in len_spellings(tier) if x[1] >= mn[1] + 2] or [('40', 40, 'lit')])
+            for k in kinds:
+                if k == 'not_empty':
+                    vs.append(V('not_empty'))
+                elif k == 'len_char_min':
+                    vs.append(V('len_char_min', *mn))
+                elif k == 'len_char_max':
+                    vs.append(V('len_char_max', *mx))
+                elif k == 'predicate':
+                    vs.append(V('predicate', '|s| s.len() != 4', form='closure') if rnd.random() < 0.5 else V('predicate', 'pred_str', form='path', callee='pred_str'))
+                else:
+                    vs.append(V('regex', '"^[a-z]+$"', form='lit', pattern='^[a-z]+$') if rnd.random() < 0.5 else V('regex', 'RE_STATIC', form='path', callee='RE_STATIC'))
+            sl = rnd.choice([[], ['trim'], ['lowercase'], ['uppercase'], ['trim', 'lowercase'], ['lowercase', 'trim'], ['trim', 'uppercase'], ['uppercase', 'trim']])
+            san = [S(x) for x in sl]
+            custom_san = rnd.random() < 0.15
+            if custom_san:
+                san.insert(rnd.randint(0, len(san)), S('with', 'san_string', 'path', callee='san_string'))
+            hv = bool(vs)
+            ds = ['Debug']
+            profile = rnd.choice(['conv', 'views', 'serde', 'arb', 'all', 'min'])
+            if profile in ('conv', 'all'):
+                ds += ['FromStr', 'TryFrom' if hv or rnd.random() < 0.3 else 'From', 'Into', 'Display']
+            if profile in ('views', 'all'):
+                ds += ['Clone', 'PartialEq', 'Eq', 'PartialOrd', 'Ord', 'Hash', 'AsRef', 'Deref', 'Borrow']
+            if profile in ('serde', 'all'):
+                ds += ['Serialize', 'Deserialize']
+            case_and_max = any(x in sl for x in ('lowercase', 'uppercase')) and 'len_char_max' in kinds
+            if profile in ('arb', 'all') and not custom_san and not ({'predicate', 'regex'} & set(kinds)) and not case_and_max \
+                    and all(v.get('form') in (None, 'lit') for v in vs):
+                ds.append('Arbitrary')
+            default = None
+            if rnd.random() < 0.2:
+                default = {'text': '"  Hello  "', 'value': '  Hello  '}
+                ds.append('Default')
+            out.append(decl('string', 'String', sanitizers=san, validators=vs, derives=ds, default=default, new_unchecked=rnd.random() < 0.1,
+                            vis=rnd.choice(['pub', '', 'pub(crate)']),
+                            layout={'order': rnd.sample(['sanitize', 'validate', 'derive', 'default', 'new_unchecked'], 5),
+                                    'trailing': rnd.random() < 0.3, 'trailing_outer': rnd.random() < 0.3}, tags=['random-product']))
+    return out
+
+
 def build(tier='quick', seed=0):
     """Returns dict crate_name -> {'features':[..], 'prelude': str, 'decls': [decl..]}"""
     rnd = random.Random(seed)
@@ -982,6 +1101,9 @@ def build(tier='quick', seed=0):
     nostd.append(decl('any', 'alloc::vec::Vec<u8>', derives=['Debug', 'Clone', 'From', 'IntoIterator', 'Arbitrary', 'Serialize', 'Deserialize'], tags=['nostd']))
     nostd.append(decl('any', 'Point', custom={'with_text': 'check_point', 'form': 'path', 'callee': 'check_point', 'error': 'MyErr'},
                       derives=['Debug', 'TryFrom', 'FromStr'], tags=['nostd']))
+
+    # ---------------- random sample of the dimension product (interaction coverage) ---------------------
+    full += random_decls(random.Random(seed * 7919 + 17), 2500 if thorough else 320, tier)
 
     # ---------------- naming ------------------------------------------------------------
     def name_all(lst, prefix):
